@@ -27,7 +27,7 @@ import (
 )
 
 func init() {
-	register("78-ast-children", (*gen).astChildren)
+	register("80-ast-children", (*gen).astChildren)
 }
 
 type chSel struct {
